@@ -63,5 +63,23 @@ for k in ("quick", "thorough"):
         r = dict(r); r["bounds"] = "visibility lemma shared with C04: " + r["bounds"]
         c05[k].append(r)
 json.dump(c05, open("C05.json", "w"), indent=1)
+# C06: the Go runtime aborts the whole server on an unsynchronised map access ("concurrent map iteration and map
+# write"): one disconnect workload of C11 with requests in flight runs under the race detector as part of C06
+c06 = json.load(open("C06.json"))
+for k in ("quick", "thorough"):
+    extra = [r for r in c11[k] if r["harness"] == "vxH11" and r["args"][:3] == ["1", "2", "2"]][:1] or [r for r in c11[k] if r["harness"] == "vxH11" and r["args"][:3] == ["1", "1", "2"]][:1]
+    for r in extra:
+        r = dict(r); r["bounds"] = "hang-up with requests in flight, shared with C11 (an unsynchronised access to the fid table is a fatal runtime error): " + r["bounds"]
+        c06[k].append(r)
+json.dump(c06, open("C06.json", "w"), indent=1)
+# C09's "never another call's reply or data" also rests on the client's receive loop leaving delivered payloads
+# alone when later replies arrive: two client receive-loop lemmas of C13 are part of C09
+c09 = json.load(open("C09.json")); c13 = json.load(open("C13.json"))
+for k in ("quick", "thorough"):
+    extra = [r for r in c13[k] if r["harness"] == "vxH13Clnt"][:2]
+    for r in extra:
+        r = dict(r); r["bounds"] = "receive-loop lemma shared with C13: " + r["bounds"]
+        c09[k].append(r)
+json.dump(c09, open("C09.json", "w"), indent=1)
 PY
 echo props regenerated
